@@ -289,3 +289,169 @@ def from_model(sc, hist):
             raise ValueError("unknown model call " + op)
     ops.append({"op": "Finish"})
     return {"sc": sc, "ops": ops}
+
+
+# ---------------------------------------------------------------- feature-interaction programs (covering arrays)
+# One "focus" entry is described by a row over the dimensions below and placed among fixed neighbours; the archive-level
+# dimensions choose where it sits, how the archive came to be (fresh, appended to, appended to with a shrinking directory,
+# two rounds), how the sink accepts writes and how the writer is completed.  Rows form a greedy t-wise covering array (every
+# combination of values of any two dimensions occurs in some row), so rarely combined features meet systematically instead of
+# by luck.  Every program is a VALID one: all calls must succeed, the layout must be well-formed, the reopened archive must
+# show exactly the entries created (Trace_Writer judges each call).
+IDIMS = {
+    "kind": ["file", "dir", "symlink", "aligned", "aligned-odd", "extra-local", "extra-central", "extra-both", "extra-open", "rawcopy", "rawcopy-rename", "file-dirname"],
+    "method": [0, 8, 12, 93],
+    "level": ["none", "min", "max"],
+    "large": [False, True],
+    "enc": [None, "pw"],
+    "name": ["ascii", "utf8", "bslash-tail", "nested", "empty", "nul", "dup", "long"],
+    "payload": ["nowrite", "empty", "one", "small", "64k", "split"],
+    "perm": [None, 0, 0o777, 0o640],
+    "when": ["zero", "ones", "rand"],
+    "pos": ["only", "first", "middle", "last"],
+    "comment": ["none", "short", "utf8", "max"],
+    "life": ["fresh", "append", "append-shrink", "append2", "append-empty"],
+    "end": ["Finish", "Drop"],
+    "sink": ["plain", "w1", "w100", "wat"],
+}
+
+
+def covering_rows(r, dims=None, strength=2, tries=40):
+    import itertools
+    dims = dims or IDIMS
+    keys = list(dims)
+    need = set()
+    for ks in itertools.combinations(range(len(keys)), strength):
+        for vs in itertools.product(*[range(len(dims[keys[k]])) for k in ks]):
+            need.add((ks, vs))
+    rows = []
+    combos = list(itertools.combinations(range(len(keys)), strength))
+    while need:
+        best, bestc = None, -1
+        # seed each candidate with one still-uncovered combination so that progress is guaranteed
+        seedc = r.choice(sorted(need))
+        for _ in range(tries):
+            cand = [r.randrange(len(dims[k])) for k in keys]
+            for k, v in zip(*seedc):
+                cand[k] = v
+            c = sum(1 for ks in combos if (ks, tuple(cand[k] for k in ks)) in need)
+            if c > bestc:
+                best, bestc = cand, c
+        for ks in combos:
+            need.discard((ks, tuple(best[k] for k in ks)))
+        rows.append({k: dims[k][best[i]] for i, k in enumerate(keys)})
+    return rows
+
+
+def _iname(r, cls, k):
+    if cls == "ascii":
+        return "focus-%d.txt" % k
+    if cls == "utf8":
+        return r.choice(["fokus-é-%d", "焦点/%d", "\U0001F600-%d"]) % k
+    if cls == "bslash-tail":
+        return "focus%d\\" % k
+    if cls == "nested":
+        return "a/b/../c/./focus%d" % k
+    if cls == "empty":
+        return ""
+    if cls == "nul":
+        return "fo\u0000cus%d" % k
+    if cls == "dup":
+        return "neighbour-1"
+    return {"rep": r.choice(["n", "é", "p/"]), "n": r.choice([4096, 65535, 65534]), "prefix": "L%d-" % k}
+
+
+def _ipayload(r, cls):
+    if cls == "nowrite":
+        return []
+    if cls == "empty":
+        return [{"op": "Write", "data": ""}]
+    if cls == "one":
+        return [{"op": "Write", "data": "x"}]
+    if cls == "small":
+        return [{"op": "Write", "data": {"len": r.randint(2, 400), "seed": r.randint(1, 999), "kind": "text"}}]
+    if cls == "64k":
+        return [{"op": "Write", "data": {"len": 65536 + r.randint(-2, 2), "seed": r.randint(1, 999), "kind": r.choice(["rand", "zero", "text"])}}]
+    return [{"op": "Write", "data": {"len": 5000, "seed": r.randint(1, 999), "kind": "text"}, "split": r.choice([1, 7, 4096])},
+            {"op": "Write", "data": {"len": 300, "seed": r.randint(1, 999), "kind": "rand"}}]
+
+
+def interaction_program(r, sc, row, k=0):
+    lv = None
+    m = row["method"]
+    if m in LEVELS and row["level"] != "none":
+        lv = LEVELS[m][0] if row["level"] == "min" else LEVELS[m][-1]
+    when = {"zero": (0, 0), "ones": (65535, 65535), "rand": (r.randint(0, 65535), r.randint(0, 65535))}[row["when"]]
+    o = {"method": m, "level": lv, "large": row["large"], "perm": row["perm"], "date": when[0], "time": when[1]}
+    kind = row["kind"]
+    if row["enc"] and kind == "file":
+        o["enc"] = row["enc"]
+    nm = _iname(r, row["name"], k)
+    pay = _ipayload(r, row["payload"])
+    xr = [{"id": 0xbeef, "dsz": r.choice([0, 5, 300])}, {"id": 0xcafe, "dsz": 0}]      # (the last record has an empty body)
+    if kind == "file":
+        focus = [dict(o, op="StartFile", name=nm)] + pay
+    elif kind == "file-dirname":      # a FILE whose name ends in a separator (is_dir() says directory; it still carries data)
+        nm2 = (nm if isinstance(nm, str) else "longdir%d" % k) + "/"
+        focus = [dict(o, op="StartFile", name=nm2)] + pay
+    elif kind == "dir":
+        focus = [dict(o, op="AddDir", name=nm)]
+    elif kind == "symlink":
+        focus = [dict(o, op="AddSymlink", name=nm, target=r.choice(["neighbour-1", "../é", ""]))]
+    elif kind in ("aligned", "aligned-odd"):
+        al = r.choice([2, 64, 4096, 32768]) if kind == "aligned" else r.choice([0, 1, 3, 1000, 65535])
+        focus = [dict(o, op="StartFileAligned", name=nm, align=al)] + pay
+    elif kind.startswith("extra"):
+        focus = [dict(o, op="StartFileExtra", name=nm)]
+        if kind in ("extra-local", "extra-both", "extra-open"):
+            focus.append({"op": "WriteExtra", "recs": xr})
+        if kind in ("extra-central", "extra-both"):
+            focus += [{"op": "EndLocalStartCentral"}, {"op": "WriteExtra", "recs": [{"id": 0xdead, "dsz": 9}, {"id": 0xd00d, "dsz": 0}]}]
+        if kind != "extra-open":          # extra-open: the phase is closed implicitly by the next call
+            focus.append({"op": "EndExtra"})
+            focus += pay
+    else:
+        focus = [{"op": "RawCopy", "arch": 0, "idx": r.randint(0, 3), "rename": None if kind == "rawcopy" else nm,
+                  "src_under": r.choice([{}, {"max": 7}])}]
+    n1 = [{"op": "StartFile", "name": "neighbour-1", "method": 8, "large": r.random() < 0.3}, {"op": "Write", "data": {"len": 700, "seed": 11 + k, "kind": "text"}}]
+    n2 = [{"op": "StartFile", "name": "neighbour-2", "method": 0}, {"op": "Write", "data": "second neighbour"}]
+    body = {"only": focus, "first": focus + n1, "middle": n1 + focus + n2, "last": n1 + n2 + focus}[row["pos"]]
+    sinkopt = {"plain": {}, "w1": {"short_w_max": 1}, "w100": {"short_w_max": 100}, "wat": {"short_w_at": r.randint(0, 1500)}}[row["sink"]]
+    cm = {"none": None, "short": "interaction", "utf8": "commentaire é", "max": {"rep": "k", "n": THR16}}[row["comment"]]
+    setc = [{"op": "SetComment", "c": cm}] if cm is not None else []
+    ops = list(SRC_PRELUDE)
+    life = row["life"]
+    if life == "fresh":
+        ops += [dict({"op": "New"}, **sinkopt)] + setc + body
+    else:
+        # the base: its LAST entry has local extra data its central record lacks (large_file record / alignment padding)
+        base = [{"op": "New"}, {"op": "StartFile", "name": "base/deflated", "method": 8}, {"op": "Write", "data": {"len": 900, "seed": 5, "kind": "text"}},
+                {"op": "AddDir", "name": "base/dir", "method": 0}]
+        base += r.choice([[{"op": "StartFile", "name": "base/large-last", "method": 0, "large": True}, {"op": "Write", "data": "the last old entry"}],
+                          [{"op": "StartFileAligned", "name": "base/aligned-last", "method": 0, "align": 512}, {"op": "Write", "data": "the last old entry"}],
+                          [{"op": "StartFile", "name": "base/plain-last", "method": 12}, {"op": "Write", "data": "the last old entry"}]])
+        if life == "append-empty":
+            base = [{"op": "New"}]
+        base += [{"op": "SetComment", "c": {"rep": "old comment ", "n": 3000} if life == "append-shrink" else "old"}, {"op": "Finish"}]
+        ops += base
+        arch = 1
+        if life == "append2":
+            ops += [{"op": "NewAppend", "arch": 1}] + n2 + [{"op": "Finish"}]
+            arch = 2
+            body = [x for x in body if x not in n2] if row["pos"] in ("middle", "last") else body
+        if life == "append-shrink" and cm is None:
+            setc = [{"op": "SetComment", "c": ""}]
+        ops += [dict({"op": "NewAppend", "arch": arch}, **sinkopt)] + setc + body
+    ops.append({"op": row["end"]})
+    return {"sc": sc, "ops": ops, "row": {k2: (v if not isinstance(v, dict) else "rep") for k2, v in row.items()}}
+
+
+def interaction_programs(seed, prefix="ix", only=None, strength=2):
+    r = random.Random(seed)
+    rows = covering_rows(r, strength=strength)
+    out = []
+    for k, row in enumerate(rows):
+        if only and not only(row):
+            continue
+        out.append(interaction_program(r, "%s%04d" % (prefix, k), row, k))
+    return out
